@@ -325,6 +325,17 @@ func (n *Node) PreExecProg(from *Acct, prog []KOp, authRequire []string) (*pb.In
 	return n.Chain.PreExec(n.BaseCtx(), []*pb.InvokeRequest{req}, from.Addr, authRequire)
 }
 
+// PreExecProgSplit pre-executes a program as two contract requests of one transaction: the first cut
+// operations and the rest.
+func (n *Node) PreExecProgSplit(from *Acct, prog []KOp, cut int) (*pb.InvokeResponse, error) {
+	var reqs []*pb.InvokeRequest
+	for _, part := range [][]KOp{prog[:cut], prog[cut:]} {
+		pj, _ := json.Marshal(part)
+		reqs = append(reqs, &pb.InvokeRequest{ModuleName: "xkernel", ContractName: XsimContract, MethodName: "run", Args: map[string][]byte{"prog": pj}})
+	}
+	return n.Chain.PreExec(n.BaseCtx(), reqs, from.Addr, []string{from.Addr})
+}
+
 func min(a, b int) int {
 	if a < b {
 		return a
